@@ -117,23 +117,25 @@ Definition compose_location (s : source) (sp : span) : option location :=
   | None => None
   end.
 
-(* `composed` first turns the span -- byte offsets, like the spans of tokens and of the AST -- into character offsets:
-   `text.get(..byte).map(|s| s.chars().count())` for both ends; the span is left alone when an end is inside a code point
-   or past the text (d3106b1) *)
-Definition to_char (s : source) (b : nat) : option nat :=
-  match char_of_byte s b with Ret k => Some k | _ => None end.
-Definition span_to_chars (s : source) (sp : span) : span :=
-  match to_char s (sp_start sp), to_char s (sp_end sp) with
-  | Some a, Some b => Span a b (sp_src sp)
-  | _, _ => sp
+(* `composed` first turns the span -- byte offsets, like the spans of tokens and of the AST -- into character offsets
+   (d3106b1), totally (0301a92): `text.char_indices().take_while(|(index, _)| *index < byte).count()` = the number of
+   characters that START before the byte offset; an offset inside a character counts as the end of that character, one
+   past the text as the end of the text *)
+Fixpoint chars_before (s : source) (b : nat) {struct s} : nat :=
+  match s with
+  | [] => 0
+  | c :: t => if Nat.eqb b 0 then 0 else S (chars_before t (b - utf8_len c))
   end.
+Definition span_to_chars (s : source) (sp : span) : span :=
+  Span (chars_before s (sp_start sp)) (chars_before s (sp_end sp)) (sp_src sp).
 
 (* one iteration of ErrorMessages::composed, as (span', location) of the message afterwards (for a message that has
    no location yet: one that has is skipped, so a second `composed` does not convert again):
      no span                      -> message left alone;
      source id not in the tree    -> `e.span = None; continue` (the span cannot be interpreted by the caller);
-     otherwise span := span_to_chars, location := compose_location, and `assert!(e.location.is_some(), ..)`; then
-     compose_display builds an ariadne Label over span.start..span.end, which asserts start <= end.
+     otherwise span := span_to_chars, location := compose_location, and `assert!(e.location.is_some(), ..)` (which cannot
+     fire any more: the converted offsets are at most the character length); then compose_display builds an ariadne
+     Label over span.start..span.end, which asserts start <= end.
    (`cache.fetch` cannot fail for a tree built by SourceTree::single/new: every path of source_ids is a key of sources.) *)
 Definition composed_one (tree : list (nat * source)) (sp : option span) : out (option span * option location) :=
   match sp with
